@@ -48,8 +48,9 @@ enum { T_NONE, T_INT, T_LONG, T_LLONG, T_SSIZE, T_IMAX, T_PTRDIFF, T_UINT, T_ULO
 typedef union { long long i; unsigned long long u; double d; long double ld; const char *s; const wchar_t *w; } Val;
 
 /* value tables */
-static const long long IV[] = { 0, 1, -1, 42, -42, 0x7fffffffLL, -0x80000000LL, 0x7fffffffffffffffLL, (-0x7fffffffffffffffLL - 1) };
-static const unsigned long long UV[] = { 0, 1, 255, 0xffffffffULL, 0xffffffffffffffffULL, 0x8000 };
+static const long long IV[] = { 0, 1, -1, 42, -42, 0x7fffffffLL, -0x80000000LL, 0x7fffffffffffffffLL, (-0x7fffffffffffffffLL - 1),
+    200, 256, -129, 40000, 70000 };      /* ints outside signed char / short: hh and h convert the promoted argument, it need not be in range */
+static const unsigned long long UV[] = { 0, 1, 255, 0xffffffffULL, 0xffffffffffffffffULL, 0x8000, 300, 0x12345 };
 static const double DV[] = { 0.0, -0.0, 0.5, 1.5, 2.5, 999999999.5, 1e9, 1000000001.0, 1e300, 4.9406564584124654e-324, INFINITY, -INFINITY, NAN, 123.456, -0.001, 9.9999, 0.000123456, 1e-5, 12345678.9,
     /* exponent borders and negative exponents: two/three exponent digits, carries into the next power of ten */
     1e100, 9.9999996e99, 1e-100, 9.5e-100, 9.5e-10, 3.7e-7, 1e99, 9.99999e-5, 1e15, 123456789012345678.0 };
@@ -267,7 +268,7 @@ int main(int argc, char **argv) {
     { static const int qw[] = { 1, 5, 12, 40, 64 }, qp[] = { 0, 1, 5, 12, 40 };
       static const int tw[] = { 1, 2, 3, 4, 5, 6, 7, 8, 9, 10, 11, 12, 13, 16, 17, 20, 31, 32, 33, 34, 40, 64, 100 }, tp[] = { 0, 1, 2, 3, 4, 5, 6, 7, 8, 9, 10, 11, 12, 15, 16, 17, 18, 20, 31, 32, 33, 40, 64 };
       WID[NW++] = ""; for (int i = 0; i < (tier ? 23 : 5); i++) { sprintf(WIDB[NW], "%d", tier ? tw[i] : qw[i]); WID[NW] = WIDB[NW]; NW++; } WSTAR = NW; WID[NW++] = "*";
-      PRE[NP++] = ""; if (tier) PRE[NP++] = "."; for (int i = 0; i < (tier ? 23 : 5); i++) { sprintf(PREB[NP], ".%d", tier ? tp[i] : qp[i]); PRE[NP] = PREB[NP]; NP++; } PSTAR = NP; PRE[NP++] = ".*"; }
+      PRE[NP++] = ""; PRE[NP++] = ".";      /* a lone period is precision 0 */ for (int i = 0; i < (tier ? 23 : 5); i++) { sprintf(PREB[NP], ".%d", tier ? tp[i] : qp[i]); PRE[NP] = PREB[NP]; NP++; } PSTAR = NP; PRE[NP++] = ".*"; }
 #define WCLS(wi) ((wi) == 0 ? "none" : (wi) == WSTAR ? "*" : atoi(WID[wi]) > 32 ? "33+" : "1-32")
 #define PCLS(pi) ((pi) == 0 ? "none" : (pi) == PSTAR ? ".*" : atoi(PRE[pi] + 1) == 0 ? ".0" : atoi(PRE[pi] + 1) <= 7 ? ".1-7" : atoi(PRE[pi] + 1) == 8 ? ".8" : atoi(PRE[pi] + 1) == 9 ? ".9" : ".10+")
     static const char *ILEN[] = { "", "hh", "h", "l", "ll", "z", "j", "t" };
@@ -287,10 +288,10 @@ int main(int argc, char **argv) {
                         for (int li = 0; li < 8; li++) {
                             if ((idx++ % nsh) != shard) continue;
                             snprintf(fmt, sizeof fmt, "[%%%s%s%s%s%c]", fl, WID[wi], PRE[pi], ILEN[li], cv);
-                            int nv = uns ? 6 : 9;
+                            int nv = uns ? 8 : 14;
                             for (int vi = 0; vi < nv; vi++) { Val v; memset(&v, 0, sizeof v);
-                                if (uns) { v.u = UV[vi]; if (li == 1) v.u &= 0xff; else if (li == 2) v.u &= 0xffff; else if (li == 0) v.u &= 0xffffffffULL; }
-                                else { v.i = IV[vi]; if (li == 1) v.i = (signed char)v.i; else if (li == 2) v.i = (short)v.i; else if (li == 0) v.i = (int)v.i; }
+                                if (uns) { v.u = UV[vi]; if (li <= 2) v.u &= 0xffffffffULL; }        /* hh/h/none: an unsigned int travels, the library narrows it */
+                                else { v.i = IV[vi]; if (li <= 2) v.i = (int)v.i; }
                                 char vb[32]; snprintf(cls, sizeof cls, "%c,flags=%s,width=%s,prec=%s,len=%s,%s%s", cv, fl[0] ? fl : "none", WID[wi][0] ? WID[wi] : "none", PRE[pi][0] ? PRE[pi] : "none", ILEN[li][0] ? ILEN[li] : "none", valcls(uns ? UTYP[li] : ITYP[li], v, vb), neg ? ",negative-star" : "");
                                 one(fmt, uns ? UTYP[li] : ITYP[li], v, ns, a1, a2, 0, cls, vi, tier);
                             }
